@@ -187,6 +187,82 @@ def evaluate(l, env):
     return memo[l >> 1] ^ bool(l & 1)
 
 
+# --------------------------------------------------------------------------- truth tables (<= TT_MAX variables)
+TT_MAX = 12
+_tt = {"vars": None, "index": {}, "memo": {}, "full": 0}
+
+
+def tt_setup(names):
+    """fix the variable order for truth-table evaluation (exact feasibility decisions without solver calls)"""
+    names = tuple(names)
+    if _tt["vars"] == names:
+        return
+    k = len(names)
+    if k > TT_MAX:
+        raise ValueError("too many variables for truth tables")
+    _tt["vars"] = names
+    _tt["full"] = (1 << (1 << k)) - 1
+    _tt["memo"] = {}
+    idx = {}
+    for i, nme in enumerate(names):
+        # bit j of the table = value of variable i in assignment j  (assignment j has variable i = (j >> i) & 1)
+        block = (1 << (1 << i)) - 1            # 2^i ones
+        period = 1 << (i + 1)
+        pat = 0
+        for start in range(1 << i, 1 << k, period):
+            pat |= block << start
+        idx[nme] = pat
+    _tt["index"] = idx
+
+
+def tt_disable():
+    _tt["vars"] = None
+    _tt["memo"] = {}
+    _tt["index"] = {}
+    _tt["full"] = 0
+
+
+def tt_of(l):
+    """truth table (python int bitmask over all assignments) of a literal, or None if it mentions other variables"""
+    memo = _tt["memo"]
+    full = _tt["full"]
+    if l < 2:
+        return full if l else 0
+    n = l >> 1
+    if n not in memo:
+        stack = [n]
+        while stack:
+            m = stack[-1]
+            if m in memo:
+                stack.pop()
+                continue
+            k = _nodes[m]
+            if k[0] == 'v':
+                memo[m] = _tt["index"].get(k[1])
+                stack.pop()
+                continue
+            ch = [c >> 1 for c in k[1:] if c > 1 and (c >> 1) not in memo]
+            if ch:
+                stack.extend(ch)
+                continue
+            vals = []
+            for c in k[1:]:
+                if c < 2:
+                    vals.append(full if c else 0)
+                else:
+                    t = memo[c >> 1]
+                    vals.append(None if t is None else (t ^ full if c & 1 else t))
+            if vals[0] is None or vals[1] is None:
+                memo[m] = None
+            else:
+                memo[m] = (vals[0] & vals[1]) if k[0] == 'a' else (vals[0] ^ vals[1])
+            stack.pop()
+    t = memo[n]
+    if t is None:
+        return None
+    return t ^ full if l & 1 else t
+
+
 # --------------------------------------------------------------------------- exceptions
 class PathAbort(BaseException):
     """path is infeasible / abandoned (BaseException so library `except Exception` cannot swallow it)"""
@@ -219,6 +295,8 @@ class Ctx:
         self.discharged = 0
         self.violations = []
         self.realise_sites = {}
+        self.pc_tt = _tt["full"] if _tt["vars"] is not None else None   # exact set of assignments satisfying pc
+        self.tt_decisions = 0
 
     def check(self, *extra):
         t = time.time()
@@ -236,12 +314,27 @@ class Ctx:
             return
         self.solver.add(toz3(l))
         self.pc.append(l)
+        if self.pc_tt is not None:
+            t = tt_of(l)
+            self.pc_tt = None if t is None else (self.pc_tt & t)
 
     def feasible(self):
         return self.check() == "sat"
 
     def _decide(self, l):
         """-> (decision, other_side_pending)"""
+        if self.pc_tt is not None:
+            t = tt_of(l)
+            if t is not None:
+                # exact decision by truth table over the (few) symbolic variables: no solver call
+                self.tt_decisions += 1
+                can_t = (self.pc_tt & t) != 0
+                can_f = (self.pc_tt & ~t & _tt["full"]) != 0
+                if not can_t and not can_f:
+                    raise PathAbort("infeasible path condition")
+                if can_t:
+                    return True, can_f
+                return False, False
         c = toz3(l)
         can_t = self.check(c) == "sat"
         if not can_t:
@@ -287,7 +380,14 @@ class Ctx:
         lit = l if d else l ^ 1
         self.solver.add(toz3(lit))
         self.pc.append(lit)
+        if self.pc_tt is not None:
+            t = tt_of(lit)
+            self.pc_tt = None if t is None else (self.pc_tt & t)
         return d
+
+    def model_count(self):
+        """number of assignments of the registered variables satisfying the path condition (truth-table mode)"""
+        return None if self.pc_tt is None else bin(self.pc_tt).count("1")
 
     # ---- obligations
     def prove(self, label, l, witness_vars=None, info=None):
@@ -343,6 +443,7 @@ def _fork_child_reset(ctx):
     ctx.obligations = 0
     ctx.discharged = 0
     ctx.violations = []
+    ctx.tt_decisions = 0
     ctx.is_child = True
 
 
@@ -352,7 +453,7 @@ def _fork_note_child_failure(status):
 
 def _stats_of(ctx):
     return dict(queries=ctx.queries, solver_s=ctx.solver_time, verdicts=ctx.verdicts, unique=ctx.unique,
-                forks=ctx.forks, obligations=ctx.obligations, discharged=ctx.discharged)
+                forks=ctx.forks, obligations=ctx.obligations, discharged=ctx.discharged, tt=ctx.tt_decisions)
 
 
 class Result:
@@ -369,8 +470,10 @@ class Result:
         self.leaves = []
         self.errors = []
         self.aborted = 0
+        self.tt_decisions = 0
 
     def absorb_stats(self, st):
+        self.tt_decisions += st.get("tt", 0)
         self.queries += st["queries"]
         self.solver_s += st["solver_s"]
         for k, v in st["verdicts"].items():
@@ -383,7 +486,7 @@ class Result:
     def merge(self, o):
         self.paths += o.paths
         self.absorb_stats(dict(queries=o.queries, solver_s=o.solver_s, verdicts=o.verdicts, unique=o.unique,
-                               forks=o.forks, obligations=o.obligations, discharged=o.discharged))
+                               forks=o.forks, obligations=o.obligations, discharged=o.discharged, tt=o.tt_decisions))
         self.violations += o.violations
         self.leaves += o.leaves
         self.errors += o.errors
